@@ -135,11 +135,12 @@ def ty_range(body, tix):
 
 
 class Intervals:
-    def __init__(self, prog, body):
+    def __init__(self, prog, body, param_iv=None):
         self.prog = prog
         self.body = body
         self.D = dep.get_defs(body)
         self.memo = {}
+        self.param_iv = param_iv or {}   # (body key, param index) -> interval from the call sites in scope
 
     def of_operand(self, op, depth=0):
         if op[0] == "c":
@@ -187,8 +188,10 @@ class Intervals:
         tr = ty_range(self.body, self.body.locals[l][0])
         ds = self.D.of(l)
         if not ds or (1 <= l <= self.body.argc):
-            self.memo[key] = tr
-            return tr
+            pi = self.param_iv.get((self.body.key, l)) if not ds else None
+            res0 = _meet(pi, tr) if pi else tr
+            self.memo[key] = res0
+            return res0
         res = None
         first = True
         for d in ds:
@@ -344,3 +347,46 @@ def _operand_ty(body, op):
         if isinstance(e, list) and e[0] == "f":
             return e[4]
     return body.locals[pl[0]][0] if not pl[1] else None
+
+
+def param_intervals(prog, cg, bodies, entries, rounds=8):
+    """Closed-world integer parameter intervals for the bodies reachable from `entries`:
+    interval(param) = join over the call sites inside `bodies` of the interval of the argument.
+    Entry points and bodies with callers outside `bodies` keep the full type range."""
+    piv = {}
+    bodies = set(bodies)
+    entries = set(entries)
+    callers_outside = set()
+    for k in bodies:
+        for (c, kind, bb, loc) in cg.rev.get(k, ()):
+            if c not in bodies and kind in ("call", "ref", "generic"):
+                callers_outside.add(k)
+    for _ in range(rounds):
+        new = {}
+        for k in bodies:
+            b = prog.bodies[k]
+            iv = Intervals(prog, b, piv)
+            for bb, blk in enumerate(b.blocks):
+                t = blk["t"]
+                if blk["c"] or t[0] != "call":
+                    continue
+                ck = F.callee_key(t)
+                if ck not in bodies or ck in entries or ck in callers_outside:
+                    continue
+                cb = prog.bodies[ck]
+                for i, a in enumerate(F.call_args(t)):
+                    l = i + 1
+                    if l > cb.argc or ty_range(cb, cb.locals[l][0]) is None:
+                        continue
+                    r = iv.of_operand(a)
+                    if r is None:
+                        r = ty_range(cb, cb.locals[l][0])
+                    old = new.get((ck, l))
+                    new[(ck, l)] = r if old is None else (min(old[0], r[0]), max(old[1], r[1]))
+        if new == piv:
+            break
+        piv = new
+    else:
+        # not converged: drop everything that still moves (widen to type range)
+        piv = {}
+    return piv
